@@ -152,7 +152,13 @@ def run_rules(P, rule_ids, env=None):
                 hit = sorted(rel & set(changed))
                 gone = vanished_functions(P)
                 hosts = {h for (h, w) in getattr(P.facts, "inlined", [])} if gone else set()
+                hosts |= {h.split("::{closure")[0] for h in hosts}     # (a closure of F is part of F)
                 absorbed = sorted(rel & hosts)
+                if not absorbed and hosts and f is not None:
+                    # ... or a function that the merged code now calls directly (what the vanished
+                    # function did around that call is what the rule wanted to read)
+                    root = f.body.get("root") or f.id
+                    absorbed = sorted(h for h in hosts if h in P.fns and any(root in P.local_targets(c) or f.id in P.local_targets(c) for c in P.fns[h].calls))
                 if absorbed and not hit:
                     # a function of the pinned tree no longer exists and new functions were merged
                     # into this one (or the one it calls): the rules that are anchored on the
